@@ -1,6 +1,6 @@
 """Evaluate seeded changes: for every seeded/<dir>/meta.json (or own/*.diff listed in own/index.json) apply, run the quick
 checks named there, restore.  Writes seeded/RESULTS.md.  Usage: python3 tools/eval_all.py [--only substr]"""
-import json, os, subprocess, sys, glob
+import json, os, re, subprocess, sys, glob
 HERE = os.path.dirname(os.path.dirname(os.path.abspath(__file__)))
 only = sys.argv[sys.argv.index("--only") + 1] if "--only" in sys.argv else None
 rows = []
@@ -18,7 +18,7 @@ if os.path.exists(idx):
     for e in json.load(open(idx)):
         entries.append(("own/" + e["patch"], os.path.join(HERE, "seeded", "own", e["patch"]) if not e["patch"].startswith("../") else os.path.normpath(os.path.join(HERE, "seeded", "own", e["patch"])), e["checks"], e.get("reverse", False), e.get("summary", "")))
 for name, patch, checks, rev, summary in entries:
-    if only and only not in name:
+    if only and not re.search(only, name):
         continue
     out = run(patch, checks, rev)
     caught = [l for l in out if " rc=1 " in l]
